@@ -53,6 +53,9 @@ TARGETS = [
     ("localcider/backend/sequence.py", "Sequence", "kappa_X", "kappaX1CharSrc", "C06Src", {"charloop": 1}),
     # the index arithmetic of the SCD double loop: range bounds, the two subscripts, the distance, the exponent, the final quotient
     ("localcider/backend/sequence.py", "Sequence", "sequence_charge_decoration", "scdNest", "C07Src", {"pairnest": True}),
+    # the per-site decision of setPhosPhoSites' loop (what is appended to self.phosphosites, if anything) and the S/T/Y letter lists
+    ("localcider/backend/sequence.py", "Sequence", "setPhosPhoSites", "setSiteSrc", "C16Src", {"siteloop": True}),
+    ("localcider/backend/sequence.py", "Sequence", "get_STY_residues", "stySrc", "C16Src", {"letters": True}),
 ]
 # the interface (parameter list) each translated fragment had when the CxxSrc proofs were written: the quantities of the object the text
 # reads.  A rewrite that reads other quantities (a new private helper, a cached count, ...) no longer FITS the statement of the proof -
@@ -384,6 +387,101 @@ def pair_nest(f, path, cls, fn, lean_name):
     return ("/-- translated from %s:%s.%s (loop nest at line %d) -/\n" % (path, cls, fn, outer.lineno)) + "\n".join(out) + "\n"
 
 
+def const_letters(e):
+    if isinstance(e, (ast.List, ast.Tuple, ast.Set)) and e.elts and all(isinstance(x, ast.Constant) and isinstance(x.value, str)
+                                                                        and len(x.value) == 1 and x.value.isalnum() for x in e.elts):
+        return [x.value for x in e.elts]
+    if isinstance(e, ast.Constant) and isinstance(e.value, str) and e.value.isalnum():
+        return list(e.value)
+    raise Unsupported("not a constant list of letters")
+
+
+def letters_of(f, lean_name):
+    """the one `<name> in [<letter constants>]` test of a function -> the list of letters"""
+    found = [c for c in ast.walk(f) if isinstance(c, ast.Compare) and len(c.ops) == 1 and isinstance(c.ops[0], (ast.In, ast.NotIn))
+             and isinstance(c.left, ast.Name) and isinstance(c.comparators[0], (ast.List, ast.Tuple, ast.Set, ast.Constant))]
+    if len(found) != 1:
+        raise Unsupported("expected exactly one membership test against constants")
+    ls = const_letters(found[0].comparators[0])
+    return "def %sLetters : List Char := [%s]\n" % (lean_name, ", ".join("'%s'" % c for c in ls))
+
+
+class SiteLoop:
+    """body of `for site in <arg>:` in setPhosPhoSites -> what is appended to self.phosphosites (some idx) or nothing (none).
+    int(x) is the identity (the model's sites are integers); `continue`, `pass`, falling off the end -> none;
+    `<res> not in [letters]` -> Bool parameter res_in_set (letters emitted separately); `<e> in self.phosphosites` -> Bool parameter already"""
+
+    def __init__(self, loop):
+        if not (isinstance(loop.target, ast.Name) and not loop.orelse):
+            raise Unsupported("loop shape")
+        self.var = loop.target.id
+        self.tr = Tr([self.var], (), "Int", None)
+        self.letters, self.bools, self.resvar = None, [], None
+        self.body = self.block(list(loop.body), {self.var}, 1)
+
+    def bparam(self, n):
+        if n not in self.bools:
+            self.bools.append(n)
+        return n
+
+    def cond(self, e, local):
+        if isinstance(e, ast.BoolOp):
+            return "(" + (" ∧ " if isinstance(e.op, ast.And) else " ∨ ").join(self.cond(v, local) for v in e.values) + ")"
+        if isinstance(e, ast.UnaryOp) and isinstance(e.op, ast.Not):
+            return "(¬ %s)" % self.cond(e.operand, local)
+        if isinstance(e, ast.Compare) and len(e.ops) == 1 and isinstance(e.ops[0], (ast.In, ast.NotIn)):
+            pos = isinstance(e.ops[0], ast.In)
+            r = e.comparators[0]
+            if isinstance(e.left, ast.Name) and e.left.id == self.resvar:
+                ls = const_letters(r)
+                if self.letters not in (None, ls):
+                    raise Unsupported("two letter lists")
+                self.letters = ls
+                return "(%s = %s)" % (self.bparam("res_in_set"), "true" if pos else "false")
+            if isinstance(r, ast.Attribute) and isinstance(r.value, ast.Name) and r.value.id == "self" and r.attr == "phosphosites" \
+                    and isinstance(e.left, ast.Name) and e.left.id == self.idxvar:
+                return "(%s = %s)" % (self.bparam("already"), "true" if pos else "false")
+            raise Unsupported("membership test")
+        return self.tr.cond(e, local)
+
+    idxvar = None
+
+    def block(self, stmts, local, ind):
+        pad = "  " * ind
+        if not stmts:
+            return pad + ".ok none"
+        s, rest = stmts[0], stmts[1:]
+        if isinstance(s, (ast.Continue, ast.Pass)):
+            return pad + ".ok none" if isinstance(s, ast.Continue) else self.block(rest, local, ind)
+        if isinstance(s, ast.Expr) and isinstance(s.value, ast.Constant):
+            return self.block(rest, local, ind)
+        if isinstance(s, ast.Expr) and isinstance(s.value, ast.Call):
+            f = s.value.func
+            nm = f.id if isinstance(f, ast.Name) else None
+            if nm in SKIP_CALLS:
+                return self.block(rest, local, ind)
+            if isinstance(f, ast.Attribute) and f.attr == "append" and isinstance(f.value, ast.Attribute) and isinstance(f.value.value, ast.Name) \
+                    and f.value.value.id == "self" and f.value.attr == "phosphosites" and len(s.value.args) == 1:
+                if rest:
+                    raise Unsupported("statements after the append")
+                return pad + ".ok (some %s)" % self.tr.expr(s.value.args[0], local)
+            raise Unsupported("call statement")
+        if isinstance(s, ast.Assign) and len(s.targets) == 1 and isinstance(s.targets[0], ast.Name):
+            nm, v = s.targets[0].id, s.value
+            if isinstance(v, ast.Call) and isinstance(v.func, ast.Name) and v.func.id == "int" and len(v.args) == 1 \
+                    and isinstance(v.args[0], ast.Name) and v.args[0].id == nm:
+                return self.block(rest, local, ind)                 # site = int(site)
+            if isinstance(v, ast.Subscript) and isinstance(v.value, ast.Attribute) and isinstance(v.value.value, ast.Name) \
+                    and v.value.value.id == "self" and v.value.attr == "seq" and isinstance(v.slice, ast.Name) and v.slice.id in local:
+                self.resvar, self.idxvar = nm, v.slice.id              # res = self.seq[idx]
+                return self.block(rest, local, ind)
+            return pad + "let %s : Int := %s\n" % (nm, self.tr.expr(v, local)) + self.block(rest, local | {nm}, ind)
+        if isinstance(s, ast.If):
+            c = self.cond(s.test, local)
+            return pad + "if %s then\n%s\n%selse\n%s" % (c, self.block(s.body + rest, local, ind + 1), pad, self.block(s.orelse + rest, local, ind + 1))
+        raise Unsupported("statement %s" % type(s).__name__)
+
+
 def find_func(tree, cls, name):
     plain = name.split("__")[-1] if name.startswith("_" + cls + "__") else name
     for n in tree.body:
@@ -405,6 +503,23 @@ def main():
             args = [a.arg for a in f.args.args if a.arg != "self"]
             opt = rest_t[0] if rest_t else ()
             stmts = f.body
+            if isinstance(opt, dict) and opt.get("letters"):
+                defs.append(("/-- translated from %s:%s.%s (line %d) -/\n" % (path, cls, fn, f.lineno)) + letters_of(f, lean_name))
+                info[lean_name] = []
+                continue
+            if isinstance(opt, dict) and opt.get("siteloop"):
+                loops = [x for x in f.body if isinstance(x, ast.For)]
+                if len(loops) != 1:
+                    raise Unsupported("expected exactly one top-level for loop")
+                sl = SiteLoop(loops[0])
+                ps = [q for q in sl.tr.params] + sl.bools
+                if ps != ["site", "len_seq", "res_in_set", "already"] or sl.letters is None:
+                    raise Unsupported("the text now reads (%s), the proof is stated over (site, len_seq, res_in_set, already)" % ", ".join(ps))
+                defs.append("/-- translated from %s:%s.%s (loop at line %d) -/\ndef %s (site : Int) (len_seq : Int) (res_in_set : Bool) (already : Bool) : Except Unit (Option Int) :=\n%s\n\n"
+                            "def %sLetters : List Char := [%s]\n" % (path, cls, fn, loops[0].lineno, lean_name, sl.body, lean_name,
+                                                                     ", ".join("'%s'" % c for c in sl.letters)))
+                info[lean_name] = ps
+                continue
             if isinstance(opt, dict) and opt.get("pairnest"):
                 defs.append(pair_nest(f, path, cls, fn, lean_name))
                 info[lean_name] = ["len"]
